@@ -1,3 +1,4 @@
+import Cvise.Proofs.BinaryGenEq
 import Cvise.Proofs.BinaryMonotone
 import Cvise.Proofs.BinaryNoSingle
 import Cvise.Proofs.BinaryTerm
